@@ -197,6 +197,85 @@ def main():
             t.start()
         for t in ts:
             t.join()
+    # hammer phase: several clients solve small valid instances back to back while several others poll
+    # /health without pause, all over kept-alive connections. Every request must be answered (solves
+    # with the departure segments of their own instance); a server that wedges (e.g. two handlers
+    # waiting for each other) leaves requests unanswered here and fails the final health check.
+    hammer = {"solves": 0, "solves_ok": 0, "health": 0, "health_ok": 0, "detail": ""}
+    if up:
+        import json as _json
+        hbodies = []
+        for k in range(n):
+            if open(os.path.join(req, "req_%d.kind" % k)).read() == "valid":
+                b = open(os.path.join(req, "req_%d.body" % k)).read()
+                hbodies.append(b)
+        hbodies.sort(key=len)
+        hbodies = hbodies[:3]
+        hwant = []
+        for b in hbodies:
+            inst = _json.loads(b)
+            hwant.append(sorted(x["id"] for d in inst["departures"] for x in d["segments"]))
+        hdur = float(os.environ.get("RSV_SERVE_HAMMER", "2.5" if n < 200 else "8"))
+        stop_at = time.time() + hdur
+        hlock = threading.Lock()
+
+        def hsolver(i):
+            c = http.client.HTTPConnection("127.0.0.1", port, timeout=15)
+            j = i
+            while time.time() < stop_at and not hammer["detail"]:
+                j += 1
+                b = hbodies[j % len(hbodies)]
+                good = False
+                why = ""
+                try:
+                    c.request("POST", "/solve", body=b.encode(), headers={"Content-Type": "application/json"})
+                    r = c.getresponse()
+                    data = r.read().decode("utf-8", "replace")
+                    if r.status == 200:
+                        got = sorted(x["departureSegment"] for x in _json.loads(data)["schedule"]["departureSegments"])
+                        good = got == hwant[j % len(hbodies)]
+                        why = "" if good else "solve answered with another instance's segments"
+                    else:
+                        why = "solve answered %s" % r.status
+                except Exception as e:
+                    why = "solve not answered: %s" % str(e)[:50]
+                    c.close()
+                    c = http.client.HTTPConnection("127.0.0.1", port, timeout=15)
+                with hlock:
+                    hammer["solves"] += 1
+                    hammer["solves_ok"] += int(good)
+                    if not good and not hammer["detail"]:
+                        hammer["detail"] = why
+            c.close()
+
+        def hhealth():
+            c = http.client.HTTPConnection("127.0.0.1", port, timeout=15)
+            while time.time() < stop_at and not hammer["detail"]:
+                good = False
+                why = ""
+                try:
+                    c.request("GET", "/health")
+                    r = c.getresponse()
+                    data = r.read().decode("utf-8", "replace")
+                    good = r.status == 200 and data.strip() == "Healthy"
+                    why = "" if good else "health answered %s" % r.status
+                except Exception as e:
+                    why = "health not answered: %s" % str(e)[:50]
+                    c.close()
+                    c = http.client.HTTPConnection("127.0.0.1", port, timeout=15)
+                with hlock:
+                    hammer["health"] += 1
+                    hammer["health_ok"] += int(good)
+                    if not good and not hammer["detail"]:
+                        hammer["detail"] = why
+            c.close()
+
+        if hbodies:
+            hts = [threading.Thread(target=hsolver, args=(i,)) for i in range(4)] + [threading.Thread(target=hhealth) for _ in range(6)]
+            for t in hts:
+                t.start()
+            for t in hts:
+                t.join()
     alive = srv.poll() is None
     final_health = request(port, "GET", "/health", timeout=10) if up else ("closed", "")
     # a final valid request after all the faults
@@ -276,7 +355,9 @@ def main():
               "V finalhealth %s %s" % (final_health[0], final_health[1].strip().replace(" ", "_")[:40]),
               "V healthprobes %d %d" % (len(health_during), sum(1 for s, b in health_during if s == "200" and b.strip() == "Healthy")),
               "V clients %d" % clients, "V abandoned %d" % abandoned[0],
-              "V reuse %d %d %s" % (reuse["sent"], reuse["ok"], reuse["detail"].replace(" ", "_") or "-")]
+              "V reuse %d %d %s" % (reuse["sent"], reuse["ok"], reuse["detail"].replace(" ", "_") or "-"),
+              "V hammer %d %d %d %d %s" % (hammer["solves"], hammer["solves_ok"], hammer["health"], hammer["health_ok"],
+                                          hammer["detail"].replace(" ", "_") or "-")]
     for k in range(n):
         kind, st, body = results.get(k, (open(os.path.join(req, "req_%d.kind" % k)).read(), "notsent", ""))
         write_case("serve_%d_%d" % (seed, k), k, kind, st, body, common)
